@@ -782,6 +782,13 @@ func scanFields(buf []byte, i int) (int, []byte, error) {
 		if buf[i] == '"' && equals > commas {
 			quoted = !quoted
 			i++
+			// The closing quote ends a string value: only a separator may follow it.
+			if !quoted && i < len(buf) && buf[i] != ',' && buf[i] != ' ' {
+				if buf[i] == '"' {
+					return i, buf[start:i], fmt.Errorf("unbalanced quotes")
+				}
+				return i, buf[start:i], fmt.Errorf("invalid field format")
+			}
 			continue
 		}
 
